@@ -215,7 +215,7 @@ func builtinGhostSort(name string) (string, bool) {
 		return arrSort(SStr, SInt), true
 	case name == "signalled":
 		return arrSort(SInt, SBool), true
-	case name == "sends", name == "closes", name == "broadcasts", name == "wgdone":
+	case name == "sends", name == "closes", name == "broadcasts", name == "wgdone", name == "tickerStopped":
 		return arrSort(SInt, SInt), true
 	case name == "usercalls":
 		return SInt, true
@@ -692,7 +692,7 @@ func (ec *EvalCtx) call(e *CExpr) Val {
 			fail("$mk needs a typed pointer value: %s", e.Args[0])
 		}
 		vc.modules["iface"] = true
-		vc.strLits["ptrtid."+typeRepr(tv.Typ)] = "ptrtid"
+		vc.strLits["ptrtid."+tidRepr(tv.Typ)] = "ptrtid"
 		return TV{app("mkptr", SInt, vc.typeID(tv.Typ), tv.T), nil}
 	case "$as":
 		// $as(*T, x): the pointer held by interface value x, typed *T
@@ -843,6 +843,13 @@ func (ec *EvalCtx) resolveType(s string) types.Type {
 	case "ref", "any", "error":
 		return types.NewInterfaceType(nil, nil)
 	}
+	var explicit []types.Type
+	if i := strings.Index(s, "["); i > 0 && strings.HasSuffix(s, "]") {
+		for _, a := range splitTargets(s[i+1 : len(s)-1]) {
+			explicit = append(explicit, ec.resolveType(a))
+		}
+		s = s[:i]
+	}
 	pkg := ec.pkg
 	name := s
 	if i := strings.Index(s, "."); i >= 0 {
@@ -860,6 +867,10 @@ func (ec *EvalCtx) resolveType(s string) types.Type {
 					var targs []types.Type
 					for i := 0; i < n.TypeParams().Len(); i++ {
 						tp := n.TypeParams().At(i)
+						if i < len(explicit) {
+							targs = append(targs, explicit[i])
+							continue
+						}
 						if a, ok := ec.tparams[tp.Obj().Name()]; ok {
 							targs = append(targs, a)
 						} else {
